@@ -196,8 +196,7 @@ array_t* get_dir (char *path, int flags) {
   for (de = readdir (dirp); de; de = readdir (dirp))
     {
       namelen = strlen (de->d_name);
-      if (!do_match && (strcmp (de->d_name, ".") == 0 ||
-                        strcmp (de->d_name, "..") == 0))
+      if (strcmp (de->d_name, ".") == 0 || strcmp (de->d_name, "..") == 0)
         continue;
       if (do_match && !match_string (regexppath, de->d_name))
         continue;
@@ -248,8 +247,7 @@ array_t* get_dir (char *path, int flags) {
   for (i = 0, de = readdir (dirp); i < count; de = readdir (dirp))
     {
       namelen = strlen (de->d_name);
-      if (!do_match && (strcmp (de->d_name, ".") == 0 ||
-                        strcmp (de->d_name, "..") == 0))
+      if (strcmp (de->d_name, ".") == 0 || strcmp (de->d_name, "..") == 0)
         continue;
       if (do_match && !match_string (regexppath, de->d_name))
         continue;
